@@ -7,26 +7,36 @@ from common import *
 ID = 'C08'
 COQ_FILES = ['Base/Mat.v', 'Base/SumQ.v', 'Base/ListX.v', 'Model/Between.v', 'Proofs/BetweenAccum.v',
              'Proofs/BetweenReady.v', 'Proofs/BetweenQueue.v', 'Proofs/BetweenBin.v', 'Proofs/BetweenSpec.v', 'Proofs/BetweenPaths.v',
-             'Properties/C08.v']
+             'Proofs/BetweenTight.v', 'Proofs/BetweenLast.v', 'Proofs/BetweenCount.v', 'Proofs/BetweenFull.v',
+             'Proofs/BetweenBfs.v', 'Proofs/BetweenPow.v', 'Proofs/BetweenScale.v', 'Properties/C08.v']
 THEOREMS = ['C08_spec_enumeration_faithful', 'C08_dist_spec_correct', 'C08_shortest_walks_simple',
             'C08_bin_sum_BC', 'C08_bin_sum_EBC', 'C08_brandes_accumulation', 'C08_brandes_accumulation_node',
-            'C08_dag_counts_exist', 'C08_queue_slots_wei', 'C08_queue_slots_bin', 'C08_search_wei_dist_partial',
-            'C08_ebc_wei_pairsums_partial', 'C08_bc_wei_pairsums_partial', 'C08_ebc_bin_pairsums_partial',
+            'C08_dag_counts_exist', 'C08_queue_slots_wei', 'C08_queue_slots_bin',
+            'C08_spec_last_connection', 'C08_sigma_last_connection', 'C08_search_wei_correct', 'C08_search_bin_correct',
+            'C08_pairsums_to_spec', 'C08_bc_wei_correct', 'C08_ebc_wei_correct', 'C08_ebc_bin_correct',
+            'C08_matrix_power_counts', 'C08_bc_bin_forward', 'C08_bc_bin_back_pass', 'C08_bc_bin_correct',
+            'C08_bc_correct', 'C08_ebc_node_vector_eq_bc_bin', 'C08_wei_eq_bin_on_binary',
+            'C08_spec_scale_invariant', 'C08_wei_scale_invariant',
             'C08_ebc_node_vector_eq_bc_wei']
 RULE = ('every labelled digraph on n<=3 nodes (n<=4 thorough, a random slice of n=4 in quick), every labelled undirected '
         'graph on n<=4 nodes (n<=5 thorough, a slice of n=5 in quick); random directed / undirected graphs n=2..7 with '
         'integer connection lengths drawn from {1,2,3} or {1,2} (many exact ties between alternative routes) at densities '
         '0.15-0.9; structured families: rings, stars, paths, complete, complete bipartite, grids, directed cycles with '
-        'chords, trees plus chords, disjoint unions, graphs with isolated nodes, graphs with self-connections. Each graph '
+        'chords, trees plus chords, disjoint unions, graphs with isolated nodes, graphs with self-connections; the same '
+        'families with NEAR-TIE dyadic lengths (integers in {1,2,3} * 2^20 or 2^30, perturbed by +-1..3 units and scaled by '
+        '2^-20 / 2^-30: alternative routes differing by 1e-6..1e-9 relative beside exact ties) and with all lengths on a '
+        '2^-30 scale (model and oracle run on the integer numerators - betweenness is scale invariant). Each graph '
         'is fed to the four routines (binary routines on the 0/1 pattern, weighted routines on the length matrix and on '
         'the 0/1 pattern). non-trivial = at least one ordered pair at distance >= 2 hops (some node lies strictly between '
         'two others); distinct by hash of (length matrix).')
-ASSUMES = ['connection lengths are small positive integers: every sum / comparison of lengths and every path count the '
-           'model treats as exact is exact in binary64; quotients are compared with tolerance 1e-9',
+ASSUMES = ['connection lengths are small positive integers or integers < 2^33 times 2^-20 / 2^-30 (dyadic): every sum / '
+           'comparison of lengths and every path count the model treats as exact is exact in binary64; quotients are '
+           'compared with tolerance 1e-9',
            'the weighted routines are given a LENGTH matrix (as documented), 0 = no connection']
-TRUSTED = ['bc_correct for the four routines (model output = BC_spec / EBC_spec) is NOT proved in full: the dependency '
-           'accumulation, queue layout, node-vector equality and the binary sum identities are theorems; agreement of the '
-           'routines with the specification is additionally established by exhaustive differential testing (a test)']
+TRUSTED = ['bc_correct for the four routines (model output = BC_spec / EBC_spec) IS a theorem about the Gallina models '
+           '(C08_bc_correct); that the models follow the Python code statement by statement is established by the '
+           'differential correspondence (sampling), including the per-source search state (Q, q, NP, D, P) of the '
+           'Brandes-style routines']
 
 TOL = 1e-9
 
@@ -272,6 +282,38 @@ def random_graph(ctx):
     return 'selfloops', g_selfloops(r, n, vals)
 
 
+def near_tie_graph(ctx):
+    """lengths = (base in {1,2,3}) * 2**k + tiny integer perturbations, to be scaled by 2**-k: alternative routes that
+    differ by ~1e-6 / ~1e-9 relative (NOT ties) next to exact ties; or all lengths on a 2**-30 scale (every difference
+    below 1e-8 absolute).  Returns (family, integer matrix, scale_pow)."""
+    r = ctx.nprng
+    kind = int(r.randint(0, 4))
+    fam, B = random_graph(ctx)
+    B = np.asarray(B, dtype=np.int64)
+    if kind == 0:                                  # everything on a tiny scale, exact ties kept
+        return 'tinyscale_' + fam, B, -30
+    k = 20 if kind in (1, 2) else 30
+    L = B * (1 << k)
+    sym = bool(np.array_equal(B, B.T))
+    n = len(B)
+    for i in range(n):
+        for j in range(n):
+            if B[i, j] and (not sym or i < j) and r.rand() < 0.45:
+                L[i, j] += int(r.choice([1, -1, 2, 3]))
+                if sym:
+                    L[j, i] = L[i, j]
+    return 'neartie%d_' % k + fam, L, -k
+
+
+def near_tie_square(eps_num, k):
+    """square 0-1-3 / 0-2-3 with lengths 1,1 / 1,1+eps"""
+    one = 1 << k
+    L = np.zeros((4, 4), dtype=np.int64)
+    for a, b, w in ((0, 1, one), (1, 3, one), (0, 2, one), (2, 3, one + eps_num)):
+        L[a, b] = L[b, a] = w
+    return L
+
+
 def all_digraphs(n):
     cells = [(i, j) for i in range(n) for j in range(n) if i != j]
     for bits in range(1 << len(cells)):
@@ -299,20 +341,24 @@ class Runner:
         self.lines, self.pend = [], []
         self.seen = set()
 
-    def impl(self, f, M, key, case):
+    def impl(self, f, M, key, case, scale_pow=0):
         try:
-            return call(f, M.astype(float), _t=10.0)
+            # lengths = integers * 2**scale_pow: exact in binary64 (numerators < 2**40, sums of <= 7 of them < 2**53)
+            return call(f, M.astype(float) * (2.0 ** scale_pow), _t=10.0)
         except Timeout:
             self.ctx.fail(key + ':raises', 'does not terminate within 10 s', case)
         except Exception as e:
             self.ctx.fail(key + ':raises', 'raised %r' % (e,), case)
         return None
 
-    def graph(self, L, fam, spec=False):
+    def graph(self, L, fam, spec=False, scale_pow=0):
+        """L: integer length matrix (numerators); the weighted routines are given L * 2**scale_pow (dyadic, exact in
+        binary64), the model and the oracle run on the integer numerators (betweenness is invariant under scaling all
+        lengths by a positive constant: C08_spec_scale_invariant)"""
         ctx, bct = self.ctx, self.bct
-        L = np.asarray(L, dtype=int)
+        L = np.asarray(L, dtype=np.int64)
         n = len(L)
-        h = jhash(L.tolist())
+        h = jhash([L.tolist(), scale_pow])
         if h in self.seen:
             return
         self.seen.add(h)
@@ -369,18 +415,20 @@ class Runner:
             ctx.check(bool(np.all((np.asarray(ebc) == 0) | (A != 0))), 'edge_betweenness_bin:support',
                       'a non-connection has a nonzero value', case)
         self.lines.append('ebc_bin ' + enc_mat(A.tolist())); self.pend.append(('ebc', 'edge_betweenness_bin', case, r))
+        bin_bc, bin_ebc = bc, r
 
         # ---- weighted routines on the length matrix (and, if that has other lengths, on the pattern as well)
         for M, (BCo, EBCo), tag in ([(L, (BCw, EBCw), 'len')] + ([] if binary else [(A, (BCb, EBCb), 'pattern')])):
-            case = {'fn': 'betweenness_wei', 'G': M.tolist()}
+            sp = scale_pow if tag == 'len' else 0
+            case = {'fn': 'betweenness_wei', 'G': M.tolist(), 'scale_pow2': sp}
             ctx.case(case, nontrivial=nontriv)
-            bcw = self.impl(bct.betweenness_wei, M, 'betweenness_wei', case)
+            bcw = self.impl(bct.betweenness_wei, M, 'betweenness_wei', case, sp)
             if bcw is not None:
                 ctx.check(close_vec(BCo, bcw), 'betweenness_wei:value',
                           'node betweenness differs from the enumeration of all shortest paths: got %s want %s' % (np.asarray(bcw).tolist(), [str(x) for x in BCo]), case)
-            case2 = {'fn': 'edge_betweenness_wei', 'G': M.tolist()}
+            case2 = {'fn': 'edge_betweenness_wei', 'G': M.tolist(), 'scale_pow2': sp}
             ctx.case(case2, nontrivial=nontriv)
-            r = self.impl(bct.edge_betweenness_wei, M, 'edge_betweenness_wei', case2)
+            r = self.impl(bct.edge_betweenness_wei, M, 'edge_betweenness_wei', case2, sp)
             if r is not None:
                 ebc, bc2 = r
                 ctx.check(close_mat(EBCo, ebc), 'edge_betweenness_wei:ebc',
@@ -391,6 +439,14 @@ class Runner:
                     ctx.check(np.allclose(bc2, bcw, rtol=TOL, atol=TOL), 'edge_betweenness_wei:node_vector',
                               'node vector %s differs from betweenness_wei %s' % (np.asarray(bc2).tolist(), np.asarray(bcw).tolist()), case2)
                 if tag == 'pattern' or binary:
+                    # C08_wei_eq_bin_on_binary: on a 0/1 matrix the weighted routines return what the binary routines return
+                    if bin_ebc is not None:
+                        ctx.check(np.allclose(ebc, bin_ebc[0], rtol=TOL, atol=TOL) and np.allclose(bc2, bin_ebc[1], rtol=TOL, atol=TOL),
+                                  'edge_betweenness_wei:eq_bin_on_binary',
+                                  '0/1 matrix: edge_betweenness_wei %s differs from edge_betweenness_bin %s' % (tolist(r), tolist(bin_ebc)), case2)
+                    if bin_bc is not None and bcw is not None:
+                        ctx.check(np.allclose(bcw, bin_bc, rtol=TOL, atol=TOL), 'betweenness_wei:eq_bin_on_binary',
+                                  '0/1 matrix: betweenness_wei %s differs from betweenness_bin %s' % (np.asarray(bcw).tolist(), np.asarray(bin_bc).tolist()), case)
                     want = sum(Db[s][t] for s, t in reach)
                     ctx.check(abs(float(np.sum(ebc)) - want) <= TOL * max(1, want), 'edge_betweenness_wei:sum_identity',
                               'binary graph: sum of connection values is not sum(distance) over reachable ordered pairs', case2)
@@ -517,4 +573,12 @@ def run(ctx):
     for _ in range(ctx.scale(1200, 8000)):
         fam, L = random_graph(ctx)
         R.graph(L, fam)
+    # near ties (routes that differ by ~1e-6 .. 1e-9 relative are NOT equal) and tiny absolute scales; dyadic, hence exact
+    for k in (20, 30):
+        for e in (1, -1, 0):
+            R.graph(near_tie_square(e, k), 'neartie_square', scale_pow=-k)
+    R.graph(np.array([[0, 1, 1, 0], [1, 0, 0, 1], [1, 0, 0, 2], [0, 1, 2, 0]]), 'tinyscale_square', scale_pow=-30)
+    for _ in range(ctx.scale(300, 2000)):
+        fam, L, sp = near_tie_graph(ctx)
+        R.graph(L, fam, scale_pow=sp)
     R.correspond()
